@@ -178,13 +178,15 @@ Inductive op :=
 | OMemInit (m : nat)                          (* complete initClusterID *)
 | OMemBegin (m : nat)                         (* initClusterID whose transaction is parked *)
 | OMemFinish (m : nat) (o : outcome)
-| OCall (name : string) (h : option Z).       (* handler `name` called with an otherwise empty request and header h *)
+| OCall (name : string) (h : option Z)        (* handler `name` called with an otherwise empty request and header h *)
+| OStream (name : string) (hs : list (option Z)).  (* ONE stream of the streaming handler `name` carrying the messages with headers hs *)
 
 Inductive obs :=
 | BOk | BAlready | BInvalid (k : invalid) | BConflict | BEtcdErr | BMismatch | BStartErr
 | BStarted | BBool (b : bool) | BUnit
 | BId (k : nat)            (* cluster id, renamed by order of first appearance *)
-| BAccepted | BNotBoot | BBad.
+| BAccepted | BNotBoot | BBad
+| BStream (answers : list obs).   (* per message of a stream, until the handler returned *)
 
 (* what the driver reads from etcd after every operation *)
 Record view := View { v_root : bool; v_time : bool; v_stores : list Z; v_regions : list Z; v_cid : option nat }.
@@ -205,6 +207,21 @@ Definition rinit : rstate := R (init the_cid) 100 [].
 
 Definition exempt (h : string) : bool :=
   existsb (String.eqb h) ["GetMembers"; "SyncMaxTS"; "GetDCLocationInfo"].
+
+(* ---------- streaming handlers: the caller is validated for EVERY message of a stream ----------
+   Tso, RegionHeartbeat and SyncRegions run a receive loop; the cluster id check sits inside the loop, unconditionally
+   (skeleton obligations stream_checks_every_message in the proofs).  A message that is refused ends the stream (the
+   handler returns the error).  After an accepted message the handler goes on receiving (the driver sends well-formed
+   heartbeats of the bootstrapped store on a RegionHeartbeat stream); without a running cluster RegionHeartbeat answers
+   NOT_BOOTSTRAPPED and ends. *)
+Fixpoint stream_run (name : string) (running : bool) (cid : Z) (hs : list (option Z)) : list obs :=
+  match hs with
+  | [] => []
+  | h :: r =>
+      if String.eqb name "RegionHeartbeat" && negb running then [BNotBoot]
+      else if negb (hid_of h =? cid) then [BMismatch]
+      else BAccepted :: stream_run name running cid r
+  end.
 
 Definition boot_begin (s : state) (t : nat) (hid : Z) (p : payload) : option (state * obs) :=
   match thr s t with
@@ -296,6 +313,7 @@ Definition run_op1 (r : rstate) (o : op) : rstate * obs :=
                end
       end
   | OMemFinish m oc => mem_finish r m oc
+  | OStream name hs => (r, BStream (stream_run name (running s) (scid s) hs))
   | OCall name h =>
       (r, if exempt name then BAccepted
           else if String.eqb name "RegionHeartbeat" && negb (running s) then BNotBoot  (* answers NOT_BOOTSTRAPPED before it validates *)
@@ -325,13 +343,20 @@ Definition invalid_eqb (a b : invalid) : bool :=
   | ZeroRegionId, ZeroRegionId | PeerCount, PeerCount | PeerStore, PeerStore | ZeroPeerId, ZeroPeerId => true
   | _, _ => false
   end.
-Definition obs_eqb (a b : obs) : bool :=
+Fixpoint obs_eqb (a b : obs) : bool :=
   match a, b with
   | BOk, BOk | BAlready, BAlready | BConflict, BConflict | BEtcdErr, BEtcdErr | BMismatch, BMismatch | BStartErr, BStartErr
   | BStarted, BStarted | BUnit, BUnit | BAccepted, BAccepted | BNotBoot, BNotBoot | BBad, BBad => true
   | BInvalid x, BInvalid y => invalid_eqb x y
   | BBool x, BBool y => Bool.eqb x y
   | BId x, BId y => Nat.eqb x y
+  | BStream x, BStream y =>
+      (fix go (l1 l2 : list obs) : bool :=
+         match l1, l2 with
+         | [], [] => true
+         | u :: r1, v :: r2 => obs_eqb u v && go r1 r2
+         | _, _ => false
+         end) x y
   | _, _ => false
   end.
 Definition view_eqb (a b : view) : bool :=
@@ -414,6 +439,17 @@ Fixpoint mon (prev : view) (oks : list payload) (pend : list (nat * payload)) (i
               | OBoot _ _ _, BConflict | OFinish _ Ok, BConflict => negb (v_root prev)
               | _, _ => false
               end then Some "C20:bootstrap-refused-although-nothing-is-stored"
+      (* 3c. on an open stream every message is validated: one with a foreign or absent header is refused whatever preceded it *)
+      else if match o, b with
+              | OStream _ hs, BStream bs =>
+                  (fix bad (l1 : list (option Z)) (l2 : list obs) : bool :=
+                     match l1, l2 with
+                     | h :: r1, x :: r2 =>
+                         (negb (hid_of h =? the_cid)%Z && negb (match x with BMismatch | BNotBoot => true | _ => false end)) || bad r1 r2
+                     | _, _ => false
+                     end) hs bs
+              | _, _ => false
+              end then Some "C20:stream:foreign-or-headerless-message-accepted"
       (* 4. a request that carries a different cluster id - a wrong one, 0, or no header at all - does not get past
             the validation: whatever it is answered, it is the mismatch refusal (RegionHeartbeat without a running
             cluster: NOT_BOOTSTRAPPED) *)
